@@ -49,6 +49,55 @@ fn norm<T: ToTokens>(t: &T) -> String {
   t.to_token_stream().to_string()
 }
 
+/// Names bound inside a function (parameters, `let`, closure parameters, match / if-let / for patterns).
+struct Binders(Vec<String>);
+impl<'ast> syn::visit::Visit<'ast> for Binders {
+  fn visit_pat_ident(&mut self, p: &'ast syn::PatIdent) {
+    let n = p.ident.to_string();
+    if !self.0.contains(&n) { self.0.push(n); }
+    syn::visit::visit_pat_ident(self, p);
+  }
+}
+
+/// Token text with every locally bound name replaced by a canonical one (numbered by first occurrence),
+/// also inside macro invocations such as quote! (`#name`): a consistent renaming of locals leaves the
+/// text unchanged, the use of a different variable does not.
+fn alpha(ts: proc_macro2::TokenStream, binders: &[String], seen: &mut Vec<String>) -> String {
+  let mut out = String::new();
+  for tt in ts {
+    match tt {
+      proc_macro2::TokenTree::Ident(i) => {
+        let n = i.to_string();
+        if binders.contains(&n) {
+          let k = match seen.iter().position(|x| *x == n) { Some(k) => k, None => { seen.push(n); seen.len() - 1 } };
+          out.push_str(&format!("__v{} ", k));
+        } else {
+          out.push_str(&n);
+          out.push(' ');
+        }
+      }
+      proc_macro2::TokenTree::Group(g) => {
+        let (o, c) = match g.delimiter() {
+          proc_macro2::Delimiter::Parenthesis => ("(", ")"),
+          proc_macro2::Delimiter::Brace => ("{", "}"),
+          proc_macro2::Delimiter::Bracket => ("[", "]"),
+          proc_macro2::Delimiter::None => ("", ""),
+        };
+        out.push_str(o);
+        out.push(' ');
+        out.push_str(&alpha(g.stream(), binders, seen));
+        out.push_str(c);
+        out.push(' ');
+      }
+      other => { out.push_str(&other.to_string()); out.push(' '); }
+    }
+  }
+  out
+}
+fn norm_fn<T: ToTokens>(t: &T, binders: Vec<String>) -> String {
+  alpha(t.to_token_stream(), &binders, &mut vec![])
+}
+
 fn items_of(items: &[syn::Item], prefix: &str, out: &mut BTreeMap<String, String>) {
   fn put_in(out: &mut BTreeMap<String, String>, name: String, text: String) {
     // several definitions of one name (cfg variants): concatenated in source order
@@ -62,7 +111,9 @@ fn items_of(items: &[syn::Item], prefix: &str, out: &mut BTreeMap<String, String
       syn::Item::Fn(f) => {
         let mut f = f.clone();
         f.attrs = strip_docs(&f.attrs);
-        put!(format!("{}{}", prefix, f.sig.ident), norm(&f));
+        let mut b = Binders(vec![]);
+        syn::visit::Visit::visit_item_fn(&mut b, &f);
+        put!(format!("{}{}", prefix, f.sig.ident), norm_fn(&f, b.0));
       }
       syn::Item::Macro(m) => {
         if let Some(id) = &m.ident {
@@ -86,7 +137,9 @@ fn items_of(items: &[syn::Item], prefix: &str, out: &mut BTreeMap<String, String
             syn::ImplItem::Fn(m) => {
               let mut m = m.clone();
               m.attrs = strip_docs(&m.attrs);
-              put!(format!("{}{}::{}", prefix, head, m.sig.ident), format!("{} {}", hdr_text, norm(&m)));
+              let mut b = Binders(vec![]);
+              syn::visit::Visit::visit_impl_item_fn(&mut b, &m);
+              put!(format!("{}{}::{}", prefix, head, m.sig.ident), format!("{} {}", hdr_text, norm_fn(&m, b.0)));
               any = true;
             }
             syn::ImplItem::Const(c) => {
@@ -111,7 +164,9 @@ fn items_of(items: &[syn::Item], prefix: &str, out: &mut BTreeMap<String, String
           if let syn::TraitItem::Fn(m) = ti {
             let mut m = m.clone();
             m.attrs = strip_docs(&m.attrs);
-            put!(format!("{}trait {}::{}", prefix, t.ident, m.sig.ident), norm(&m));
+            let mut b = Binders(vec![]);
+            syn::visit::Visit::visit_trait_item_fn(&mut b, &m);
+            put!(format!("{}trait {}::{}", prefix, t.ident, m.sig.ident), norm_fn(&m, b.0));
           }
         }
       }
